@@ -23,7 +23,7 @@ var Prefixes = []string{
 var ProductSlots = [][]string{
 	{"http:", "https:", "ftp:", "ws:", "file:", "foo:", "HTTP:", "", "ht\ttp:", "1a:"},
 	{"//", "/", "", "\\\\", "///", "/\\"},
-	{"", "u@", "u:p@", ":@", "u:p:q@r@", "%41é:^@"},
+	{"", "u@", "u:p@", ":@", ":pw@", "u:p:q@r@", "%41é:^@"},
 	{"h", "", "H.Test", "1.2.3.4", "0x7f.1", "1.2.3.256", "[::1]", "[1:2::3.4.5.6]", "[::1", "xn--9ca", "é", "%68", "h%2F", "localhost", "a b", "C|", "c:", "h."},
 	{"", ":", ":80", ":443", ":21", ":8080", ":0", ":65535", ":65536", ":08", ":8a", ":99999999999999999999"},
 	{"/a/b", "", "/", "/a/../b", "/./a/.", "/..", "/%2e%2E/x", "/C|/x", "/c:", "//x", "/.//x", "\\a\\b", "/a b{}`^|", "x", "/a/%2e"},
